@@ -48,6 +48,20 @@ InsertPadding and operand-dependent instruction sizes), wrappers PassLoop_MC / _
     Verdict-bearing: (i) ends within the cap, (ii) TLC accepts the decoded layout (every reference = address of
     its label's marker / EQU value, sizes legal), (iii) code file of the extra-pass run byte-identical.
     Diagnostics only (SPEC-DRIFT): pass count, per-pass symbol values, sizes, error/no error vs the model.
+(U) kinds of use x instruction shapes (checks/ext_passuses.py, spec/PassUses.tla + _MC + _Obs; added after a seeded
+    change was missed: code6809.c DecodeALU told the operand decoder "one opcode byte" for the page-2/3 opcodes LDY STY
+    LDS STS CMPD CMPY CMPU CMPS, so `label,PCR` encoded label+1 while the layout converged): the alphabets above have
+    ONE reference statement per kind and target (one-byte opcode, operand last) and decode displacements with a fixed
+    "address + 2".  PassUses holds the PUBLISHED encodings of 156 shapes (6809 53, 68HC11 27, 6502/65C02 21, 8086 24,
+    68000 31: ,PCR / [,PCR] / >,PCR on opcode pages 1-3, Bcc/LBcc, BRSET/BRCLR dir / n,X / n,Y, BBR/BBS, d16(PC) first
+    / behind an immediate or mask word, d8(PC,Xn), Bcc.S/.W/auto, DBcc, JMP (auto short/near), CALL, Jcc/LOOP/JCXZ, memory
+    operands behind segment prefixes and in front of immediate data, direct/extended and abs.W/abs.L on every page,
+    immediates, data words, lo/hi bytes) and the rule that says what a field value denotes (offset from the address
+    of the FOLLOWING instruction; 68000: from the extension word); a modelled pass loop with the code generators'
+    formulas is checked against it by TLC (4882 programs: use in front of / behind its label, 0..2 and 116..132 bytes
+    away, around 256 and 32768 for the absolute forms, a second auto-sized use in between), the same programs go
+    through the real asl and TLC reads the emitted bytes back (PassUses_Obs).  Verdict-bearing: every use in code
+    emitted without error denotes the address of its label's marker.
 (V) TLC (PassLoop_Trace) monitors sym_def / sym_mod / sym_ref / pass_end events of (a) a sample of the generated
     programs, (b) the golden corpus run with one forced extra pass (quick: a seed-chosen third with sym_ref
     events, pass protocol + extra-pass code identity for all 201): loop protocol, repass binding, trace-level
@@ -85,6 +99,8 @@ Mutations of the real code tried on scratch copies (selftest/C01-*.diff, `./chec
   m10 FindNode compares the name with the FORWARD list BEFORE it   suite  0 fail   caught: Obs 'value' + extra pass
      is folded to upper case (FORWARD of a name not in capitals                    changes code file (la: / section /
      has no effect, outer symbol bound, no second pass)                            forward la / lda la / LA: sectabs)
+  m11 code6809.c DecodeALU: DecodeAdr(1, ArgCnt, 1) - page prefix     suite  0 fail   caught: (U) 6809 ldy/lds/sty/sts/cmpy/
+     of LDY CMPD CMPU ... not counted for label,PCR (seeded change)                cmpd/cmpu/cmps la,pcr denote la+1
   fix the three proposed repairs applied                                           check exits 0 without KNOWN-FINDING
 A run on the unchanged tree exits 0 with the KNOWN-FINDING lines listed above.
 """
@@ -92,6 +108,7 @@ import json
 import os
 import shutil
 
+from checks import ext_passuses
 from vlib import aslrun, build, passloop, tlc, tracecheck
 from vlib.common import CheckError, Phase, log, pmap, rng, scratch
 from vlib.report import Report
@@ -154,6 +171,7 @@ def tlc_jobs(tier):
     jobs["MC_pinned_self"] = dict(module="PassLoop_MC", cfg="PassLoop_MC_self68k_pinned.cfg")
     jobs["MC_Y"] = dict(module="PassLoop_MC", cfg="PassLoop_MC_Y.cfg")
     jobs["MC_Y_fixed"] = dict(module="PassLoop_MC", cfg="PassLoop_MC_Y_fixed.cfg")
+    jobs.update(ext_passuses.tlc_jobs(tier))        # kinds of use x instruction shapes (spec/PassUses.tla)
     return jobs
 
 
@@ -762,11 +780,14 @@ def main(tier):
                 pickle.dump(R, f)
     model_checks(rep, tier, R)
     evaluate(rep, bld, R, tier)
+    ext_passuses.run(rep, bld, tier, R)
     return rep.finish(
         rule="programs = every PassLoop program up to the bound (TLC breadth-first export, quick: all of <= 3 items "
              "+ seed-chosen 4-item ones) + TLC-simulated programs of 5..12 items, each rendered for every dialect of "
              "its target class; distinct = distinct rendered source, non-trivial = contains a symbol reference; "
-             "plus the 201 golden programs with a forced extra pass",
+             "plus the 201 golden programs with a forced extra pass; plus the PassUses family (one use of every "
+             "instruction shape of spec/PassUses.tla in front of / behind its label at the distances listed there, "
+             "quick: all single-use programs + a seed-chosen share of the two-use ones)",
         exhaustive=False)
 
 
